@@ -9,6 +9,7 @@ import (
 	"os"
 	"runtime/debug"
 	"strings"
+	"syscall"
 
 	libaudit "github.com/elastic/go-libaudit/v2"
 
@@ -25,6 +26,9 @@ type c16Case struct {
 	Arg    int64  `json:"arg,omitempty"`
 	NoWait bool   `json:"no_wait,omitempty"`
 	Buf    []byte `json:"buf,omitempty"`
+	// Prior: an earlier NoWait SetRateLimit on the same client whose ACK ("ok" errno 0 / "refused" EPERM) is
+	// still unread when the setter under test runs: it must send its one request all the same
+	Prior string `json:"prior_undrained_nowait_request,omitempty"`
 }
 
 var c16Setters = []string{"SetPID", "SetRateLimit", "SetBacklogLimit", "SetEnabled", "SetImmutable", "SetFailure", "SetBacklogWaitTime"}
@@ -34,9 +38,20 @@ var c16U32 = []int64{0, 1, 2, 63, 64, 8192, 65535, 65536, 1<<31 - 1, 1 << 31, 1<
 func c16Setter(c *mon.Ctx, k *c16Case) {
 	sim := simkernel.New(uint32(k.Arg%1000) + 1)
 	sim.OnSend = func(s *simkernel.Sim, idx int, m simkernel.SentMsg) []simkernel.Step {
+		if idx == 0 && k.Prior == "refused" {
+			return []simkernel.Step{{Dgram: simkernel.Ack(m, syscall.EPERM)}}
+		}
 		return []simkernel.Step{{Dgram: simkernel.Ack(m, 0)}}
 	}
 	cl := &libaudit.AuditClient{Netlink: sim}
+	first := 0
+	if k.Prior != "" {
+		if err := cl.SetRateLimit(77, libaudit.NoWait); err != nil {
+			c.Violation("setter-error", fmt.Sprintf("the prior NoWait SetRateLimit returned %v", err), k)
+			return
+		}
+		first = 1
+	}
 	wm := libaudit.WaitForReply
 	if k.NoWait {
 		wm = libaudit.NoWait
@@ -76,16 +91,19 @@ func c16Setter(c *mon.Ctx, k *c16Case) {
 		c.Violation("panic", fmt.Sprintf("%s(%d) panicked: %v\n%s", k.Setter, k.Arg, p, st), k)
 		return
 	}
-	desc := fmt.Sprintf("%s(%d) nowait=%v", k.Setter, k.Arg, k.NoWait)
-	if err != nil {
+	desc := fmt.Sprintf("%s(%d) nowait=%v prior=%q", k.Setter, k.Arg, k.NoWait, k.Prior)
+	// with an unread ACK of an earlier NoWait request a WaitForReply setter reads that ACK as its own (known
+	// finding of C17): its return value is not judged here, its request is
+	judgeReply := k.Prior == "" || k.NoWait
+	if err != nil && judgeReply {
 		c.Violation("setter-error", fmt.Sprintf("%s returned %v although the kernel acknowledged with errno 0", desc, err), k)
 		return
 	}
-	if len(sim.Sent) != 1 {
-		c.Violation("setter-send-count", fmt.Sprintf("%s sent %d requests, want exactly one", desc, len(sim.Sent)), k)
+	if len(sim.Sent) != first+1 {
+		c.Violation("setter-send-count", fmt.Sprintf("%s sent %d requests, want exactly one", desc, len(sim.Sent)-first), k)
 		return
 	}
-	m := sim.Sent[0]
+	m := sim.Sent[first]
 	if m.Type != uapi.MsgSet {
 		c.Violation("setter-type", fmt.Sprintf("%s sent message type %d, want AUDIT_SET (1001)", desc, m.Type), k)
 	}
@@ -110,6 +128,10 @@ func c16Setter(c *mon.Ctx, k *c16Case) {
 			c.Violation("setter-field:"+k.Setter, fmt.Sprintf("%s: audit_status word at offset %d = %d, want %d (the setting goes to offset %d, everything else is zero)", desc, off, got, want, wantOff), k)
 			break
 		}
+	}
+	if !judgeReply {
+		c.Add("setters_with_an_unread_earlier_ack", 1)
+		return
 	}
 	if k.NoWait && sim.NRecv != 0 {
 		c.Violation("nowait-receives", fmt.Sprintf("%s performed %d receives in NoWait mode", desc, sim.NRecv), k)
@@ -284,6 +306,9 @@ func c16Run(c *mon.Ctx) {
 		for _, a := range args {
 			for _, nw := range []bool{false, true} {
 				cases = append(cases, &c16Case{Kind: "setter", Setter: s, Arg: a, NoWait: nw})
+				for _, prior := range []string{"ok", "refused"} {
+					cases = append(cases, &c16Case{Kind: "setter", Setter: s, Arg: a, NoWait: nw, Prior: prior})
+				}
 			}
 		}
 	}
@@ -300,7 +325,7 @@ func c16Run(c *mon.Ctx) {
 	c.ForEach(len(cases), func(w, i int) {
 		c16Setter(c, cases[i])
 		ev.Add(1)
-		nt.AddString(fmt.Sprintf("%s/%d/%v", cases[i].Setter, cases[i].Arg, cases[i].NoWait))
+		nt.AddString(fmt.Sprintf("%s/%d/%v/%s", cases[i].Setter, cases[i].Arg, cases[i].NoWait, cases[i].Prior))
 		if c.WantSample() {
 			c.Sample(cases[i])
 		}
